@@ -436,6 +436,13 @@ func (fr *Frame) makeSlice(st *State, i *ssa.MakeSlice) Value {
 	}
 	s := fr.v.scalarSort(elem)
 	if s == nil {
+		if _, nested := elem.Underlying().(*types.Slice); nested {
+			// a slice of slices of symbolic length: the header is exact, the contents are not modelled (every load
+			// yields an arbitrary value of the element type: an over-approximation of the nil slices it holds)
+			o.Unmodelled = true
+			o.ElemType = elem
+			return &SliceV{Obj: o, Off: F.I64(0), Len: ln, Cap: cp}
+		}
 		unsup("make of slice with non-scalar element %s and symbolic size", elem)
 	}
 	var zero *Term
